@@ -144,14 +144,24 @@ def gen_template_doc(draw):
     types = [_int_type(n, w) for n, w in zip(pk.HEADER_NAMES, pk.HEADER_WIDTHS)]
     fields = []
     lw = draw(st.sampled_from([8, 8, 4, 3, 16]))
-    types.append(_int_type("LEN", lw))
+    # how the length can become negative: through the linear adjustment, through a signed length source, or through
+    # a calibrator on the length source (no adjustment in the last two)
+    how = draw(st.sampled_from(["adjust", "adjust", "signed", "calibrated"]))
+    lt = _int_type("LEN", lw, "twosComplement" if how == "signed" else "unsigned")
+    if how == "calibrated":
+        lt["enc"]["dcal"] = {"t": "poly", "terms": [[float(draw(st.sampled_from([8, 8, 16, 1]))), 1],
+                                                    [-float(draw(st.sampled_from([8, 16, 24, 32]))), 0]]}
+    types.append(lt)
     fields.append("LEN")
     if draw(st.booleans()):
         types.append(_int_type("FILL", draw(st.sampled_from([8, 16, 4, 5]))))
         fields.append("FILL")
     slope = draw(st.sampled_from([8, 8, 16, 1, 0]))
     intercept = -draw(st.sampled_from([8, 16, 16, 24, 32, 1, 7]))
-    ln = {"t": "dyn", "ref": "LEN", "cal": draw(st.booleans()), "adj": {"slope": slope, "intercept": intercept}}
+    if how == "adjust":
+        ln = {"t": "dyn", "ref": "LEN", "cal": draw(st.booleans()), "adj": {"slope": slope, "intercept": intercept}}
+    else:
+        ln = {"t": "dyn", "ref": "LEN", "cal": how == "calibrated", "adj": None}
     if draw(st.booleans()):
         types.append({"kind": "bin", "name": "BLOB_T", "unit": None, "enc": {"k": "bin", "len": ln}})
     else:
@@ -216,6 +226,6 @@ def plan(tier, seed):
     q = tier == "quick"
     tasks = []
     for i in range(16):
-        prof = ["lengths", "template", "blobs", "full"][i % 4]
+        prof = ["lengths", "template", "blobs", "full", "template", "lengths", "template", "full"][i % 8]
         tasks.append(("generated", {"examples": 40 if q else 2500, "profile": prof}))
     return tasks
